@@ -496,12 +496,21 @@ fn enum_make(tier: Tier, i: u64) -> Case {
     Case { g: raw_explicit(dir, n, mask, 0), enc: (p % 8) as u8, salt: (i % 251) as u8, start: sel_for((p / 8) as usize % n, n) }
 }
 
+/// libFuzzer entry / from-bytes generator: bring a decoded case into the domain of `strategy`
+pub fn fuzz_domain(c: &mut Case) -> bool {
+    c.g.sanitize(0, 14, 44, None);
+    true
+}
+pub fn bytes_strategy(_tier: Tier) -> BoxedStrategy<Case> {
+    decoded_strategy(fuzz_domain)
+}
+
 pub fn property() -> Property {
     Property {
         id: "C09",
         rule: "random directed/undirected multigraphs with loops (0..=10 nodes quick; DAG, cycle, forest, multi-component, bipartite shapes) in Graph, StableGraph/MatrixGraph with vacancies, GraphMap, Csr, adj::List as the trait bounds allow; every listed function compared with Warshall closure / mutual-reachability classes / forest edge count / propagation 2-colouring; DfsSpace and TarjanScc reused across calls; non-trivial = >=2 SCCs with one of size >=2 (directed) or >=2 components (undirected); distinct by case fingerprint; bounded-exhaustive sub-check: every labelled digraph on 1..=4 nodes and undirected graph on 1..=5 nodes (6 thorough), loops included, x 8 encodings x start nodes",
         assumptions: &["is_bipartite_undirected and toposort/is_cyclic_directed are exercised only on undirected resp. directed graphs (their domain)"],
         both_profiles: false,
-        subs: vec![sub("connectivity/all", 4_000_000, 60_000_000, strategy, run), sub_enum("connectivity/all-small-graphs", enum_count, enum_make, run)],
+        subs: vec![sub_fuzz("connectivity/all", 4_000_000, 60_000_000, strategy, run, fuzz_domain), sub("connectivity/all-from-bytes", 600_000, 10_000_000, bytes_strategy, run), sub_enum("connectivity/all-small-graphs", enum_count, enum_make, run)],
     }
 }
